@@ -198,10 +198,12 @@ func (x *Exec) doCallVals(p *Path, site ssa.Instruction, cc *ssa.CallCommon, fnv
 		}
 		if ec := e.cs.Externs[name]; ec != nil {
 			// assumed contract of a dependency function; parameters are named by `params`
+			x.escapeArgs(p, args)
 			x.applyContract(p, site, ec, nil, key, args, rtypes, rtuple, k, pk)
 			return
 		}
 		if fc := e.contractOf(callee); fc != nil && !(callee == x.fn && false) {
+			x.escapeArgs(p, args)
 			x.applyContract(p, site, fc, callee, key, args, rtypes, rtuple, k, pk)
 			return
 		}
@@ -227,6 +229,8 @@ func (x *Exec) doCallVals(p *Path, site ssa.Instruction, cc *ssa.CallCommon, fnv
 			return
 		}
 		if ic := x.ifaceContract(cc); ic != nil {
+			x.escapeArgs(p, args)
+			x.escapeVal(p, fnv)
 			all := append([]Val{fnv}, args...)
 			x.evArgsSkip = 1
 			x.applyContract(p, site, ic, nil, key, all, rtypes, rtuple, k, pk)
@@ -238,6 +242,13 @@ func (x *Exec) doCallVals(p *Path, site ssa.Instruction, cc *ssa.CallCommon, fnv
 	// dynamic function value
 	if ft := x.functypeContract(cc); ft != nil {
 		x.selfVal0 = &fnv
+		if len(p.private) > 0 {
+			for _, a := range args {
+				if _, ok := p.private[a.S]; ok && a.K == KScalar {
+					x.e.note("option-style function values (functype contracts) do not retain the object under construction")
+				}
+			}
+		}
 		x.applyContract(p, site, ft, nil, key, args, rtypes, rtuple, k, pk)
 		return
 	}
@@ -261,6 +272,7 @@ func (x *Exec) external(p *Path, key string, args []Val, freshResults func(strin
 			p.escaped[a.A.Cell] = true
 		}
 	}
+	x.escapeArgs(p, args)
 	// a lock held across arbitrary code stays held; guarded state is protected from other threads but the
 	// callee itself may re-enter: we havoc everything except immutable state (documented assumption: no re-entrancy
 	// into the same instance's administration API).
@@ -1711,7 +1723,41 @@ func (x *Exec) havocEverything(p *Path) {
 			}
 		}
 	}
+	// objects this activation allocated and has not made reachable keep their fields
+	type priv struct{ key, obj, old, sort string }
+	var privs []priv
+	if len(p.private) > 0 {
+		var objs []string
+		for o := range p.private {
+			objs = append(objs, o)
+		}
+		sort.Strings(objs)
+		for _, o := range objs {
+			tk := p.private[o]
+			st := x.structType(tk)
+			if st == nil {
+				continue
+			}
+			for i := 0; i < st.NumFields(); i++ {
+				for _, lf := range e.leaves(st.Field(i).Type()) {
+					key := fieldKey(tk, st.Field(i).Name(), lf.Path)
+					srt, ok := e.keySort[key]
+					if !ok {
+						continue
+					}
+					privs = append(privs, priv{key, o, e.heapName(p, nil, key, srt), srt})
+				}
+			}
+		}
+	}
 	e.havocAll(p)
+	for _, pv := range privs {
+		nw := e.heapName(p, nil, pv.key, pv.sort)
+		p.assume(eq(sel(nw, pv.obj), sel(pv.old, pv.obj)))
+	}
+	if len(privs) > 0 {
+		e.note("objects allocated by the function and not yet stored anywhere or passed on keep their fields across calls to arbitrary code")
+	}
 	for k, old := range whole {
 		p.heap[k] = old
 	}
